@@ -27,7 +27,8 @@ pub fn oracle(req: &Req, got: &Resp) -> Result<(), String> {
                 return Err(format!("mem.drop type {}: the object's storage still contains secret bytes after drop", req.a[0][0]));
             }
             // the pure-secret types must be all zero; SigningKey keeps its public half
-            if req.a[0][0] >= 2 && req.a[0][0] <= 4 && b[1] != 1 {
+            let t = req.a[0][0] % 6;
+            if t >= 2 && t <= 4 && b[1] != 1 {
                 return Err(format!("mem.drop type {}: storage not zero after drop", req.a[0][0]));
             }
             Ok(())
